@@ -151,7 +151,9 @@ func runC10(t *testing.T, sc c10Scenario) verdict {
 		}
 		req := o.Pwm
 		lastReq = req
-		polls := o.RpmReads
+		// nominal number of RPM polls so far (virtual time / poll period): counting the device's reads
+		// would let a change that stops polling the fan stop the clock of this oracle as well
+		polls := i * sc.Loop.TickMs / sc.Loop.RpmPollMs
 		raised := prevReq >= 0 && o.Raises > res.Obs[i-1].Raises
 		if raised {
 			// "keeps raising it step by step": the requests issued at the moments of the raises never go down
